@@ -27,6 +27,7 @@ type Params struct {
 	NBrokers   int // partition p is led by broker 1+(p % NBrokers)
 	FlushMsgs  int
 	FlushFreq  time.Duration
+	FlushMax   int // Producer.Flush.MaxMessages
 	Backoff    time.Duration
 	Policy     string // drain | input
 	Version    sarama.KafkaVersion
@@ -55,7 +56,7 @@ func atoi(v url.Values, k string, def int) int {
 func Parse(v url.Values) (*Params, error) {
 	p := &Params{
 		Idem: atoi(v, "idem", 0) == 1, RetryMax: atoi(v, "rm", 1), NMsgs: atoi(v, "nm", 2), NParts: atoi(v, "np", 1),
-		NBrokers: atoi(v, "nb", 1), FlushMsgs: atoi(v, "fm", 0), FlushFreq: time.Duration(atoi(v, "ff", 0)) * time.Millisecond,
+		NBrokers: atoi(v, "nb", 1), FlushMsgs: atoi(v, "fm", 0), FlushMax: atoi(v, "fx", 0), FlushFreq: time.Duration(atoi(v, "ff", 0)) * time.Millisecond,
 		Backoff: time.Duration(atoi(v, "bo", 0)) * time.Millisecond, Policy: v.Get("policy"), CloseAny: atoi(v, "closeany", 0) == 1,
 		LastAfter: atoi(v, "lastafter", 0) == 1, Icpt: atoi(v, "icpt", 0), IcptPanic: atoi(v, "icptpanic", 0) == 1,
 		Acks: sarama.RequiredAcks(atoi(v, "acks", 1)),
@@ -199,6 +200,7 @@ func run(c *gx.Ctl, p *Params) *gx.Outcome {
 	conf.Producer.Partitioner = sarama.NewManualPartitioner
 	conf.Producer.Flush.Messages = p.FlushMsgs
 	conf.Producer.Flush.Frequency = p.FlushFreq
+	conf.Producer.Flush.MaxMessages = p.FlushMax
 	conf.Producer.RequiredAcks = p.Acks
 	conf.Producer.Compression = p.Codec
 	conf.ChannelBufferSize = 16
